@@ -36,8 +36,8 @@ Definition documented_table : table := [
   ("neq", true, "Op.neq", 2%nat, 100, -1);
   ("le", true, "Op.le", 2%nat, 100, -1);
   ("lt", true, "Op.lt", 2%nat, 100, -1);
-  ("min", true, "min", 2%nat, 100, -1);
-  ("max", true, "max", 2%nat, 100, -1);
+  ("min", true, "np.minimum", 2%nat, 100, -1);
+  ("max", true, "np.maximum", 2%nat, 100, -1);
   ("acos", true, "np.arccos", 1%nat, 100, -1);
   ("asin", true, "np.arcsin", 1%nat, 100, -1);
   ("atan", true, "np.arctan", 1%nat, 100, -1);
@@ -155,11 +155,10 @@ Section Denote.
     end.
 End Denote.
 
-(* typing: `rel_bool` says whether eq/neq/ge/le count as truth-valued (true: only usable like `and`/`or`/`!` results) or as
-   0/1 numbers usable in arithmetic (false: the reading of the property and of the shipped examples) *)
+(* typing: truth-valued results (and, or, !) only under logical operators or as the result; the relational functions
+   gt ge eq neq le lt are 0/1 numbers usable in arithmetic *)
 Section Typing.
   Context {T : Type}.
-  Variable rel_bool : bool.
   Fixpoint typeof (t : fnode T) : option ty :=
     match t with
     | FConst _ | FVar _ => Some TyN
@@ -177,8 +176,7 @@ Section Typing.
         | Some tl, Some tr =>
             if in_names n ["and"; "or"] then Some TyB
             else if negb (ty_eqb tl TyN && ty_eqb tr TyN) then None
-            else if in_names n ["+"; "-"; "*"; "/"; "^"; "**"; "pow"; "min"; "max"; "gt"; "lt"] then Some TyN
-            else if in_names n ["eq"; "neq"; "ge"; "le"] then Some (if rel_bool then TyB else TyN)
+            else if in_names n ["+"; "-"; "*"; "/"; "^"; "**"; "pow"; "min"; "max"; "gt"; "lt"; "eq"; "neq"; "ge"; "le"] then Some TyN
             else None
         | _, _ => None
         end
